@@ -10,7 +10,7 @@ LEVEL = "model_checking"
 ANCHOR_PREFIXES = ["element::SvgElement::eval_rel", "element::SvgElement::place_at", "element::SvgElement::eval_pos", "element::SvgElement::pos_attr", "element::SvgElement::eval_size",
                    "element::SvgElement::split_compound", "element::SvgElement::expand_compound", "element::SvgElement::resolve_size", "element::SvgElement::extract_dx",
                    "position::", "element::split_relspec", "types::extract_elref", "context::"]
-BOUNDS = ("reference element in {rect, circle, ellipse, line, box, point, g with one child}, referenced as #id or ^; positioned element in {rect, circle, ellipse}; "
+BOUNDS = ("reference element in {rect, circle, ellipse, line, box, point, g with one child}, referenced as #id or ^; positioned element in {rect, circle, ellipse, rect with dw/dh/dwh}; elements positioned on one axis only; "
           "forms: |h |H |v |V with gap absent/symbolic (either sign); @loc for 9 locations and 4 edges (offset symbolic either sign, or 0/25/50/100/150 %) with xy, xy+xy-loc (8), cxy, "
           "delta absent/one/two symbolic values; 11 scalar kinds on x y cx cy x2 y2 with delta absent/abs/percent, bare per-axis reference, per-axis @loc; relative sizes wh=#r, #r p%, #r a b, "
           "width=#r~h p%, dw dh dwh abs/percent; chains of length 3; positions k/2 in [-512,512], sizes k/2 in [0,256] (integers where a percentage or a further halving is applied), gaps/deltas k/2 in [-64,64]")
@@ -45,6 +45,10 @@ def pos_kinds(k0):
         "rect": ('<rect id="p" {rel} wh="%s %s"/>' % (a, b), [(6, *SZI), (8, *SZI)], va, vb),
         "circle": ('<circle id="p" {rel} r="%s"/>' % a, [(3, *SZI)], mul("2.0", va), mul("2.0", va)),
         "ellipse": ('<ellipse id="p" {rel} rxy="%s %s"/>' % (a, b), [(3, *SZI), (4, *SZI)], mul("2.0", va), mul("2.0", vb)),
+        # the placed element's own size is its size after dw / dh / dwh have been applied
+        "rect-dwh": ('<rect id="p" {rel} wh="%s %s" dwh="4 6"/>' % (a, b), [(6, *SZI), (8, *SZI)], plus(va, "4.0"), plus(vb, "6.0")),
+        "rect-dh": ('<rect id="p" {rel} wh="%s %s" dh="[[%d]]"/>' % (a, b, k0 + 2), [(6, *SZI), (8, *SZI), (4, 0, 32, 0)], va, plus(vb, f"v{k0 + 2}")),
+        "rect-dw-pct": ('<rect id="p" {rel} wh="%s %s" dw="50%%"/>' % (a, b), [(6, 0, 256, 0), (8, *SZI)], mul("0.5", va), vb),
     }
 
 
@@ -61,13 +65,13 @@ def templates(tier, seed):
     PK = ["rect", "circle", "ellipse"]
     for rk in RK:
         for ref in ("#r", "^"):
-            for pk in PK:
+            for pk in PK + ["rect-dwh", "rect-dh", "rect-dw-pct"]:
                 for d in DIRS:
                     for gap in ("none", "sym"):
                         tds.append(dict(fam="dir", rk=rk, ref=ref, pk=pk, d=d, gap=gap))
     for rk in RK:
         for ref in ("#r", "^"):
-            for pk in PK:
+            for pk in PK + (["rect-dwh", "rect-dh"] if ref == "#r" else []):
                 for loc in LOCS:
                     for anchor in ["xy", "cxy"] + ["xy-loc:" + l for l in LOCS if l != "tl"]:
                         for delta in ("none", "one", "two"):
@@ -86,6 +90,14 @@ def templates(tier, seed):
             for sc in SCALARS:
                 for delta in ("none", "abs", "pct"):
                     tds.append(dict(fam="scalar", rk=rk, attr=attr, sc=sc, delta=delta))
+            # other shapes, and elements positioned on ONE axis only (the other coordinate stays at its default)
+            for pk in ("circle", "ellipse", "rect"):
+                for other in ("given", "absent"):
+                    for sc in ("@b", "@tr", "~x2", "~cy", "bare", "@l:o"):
+                        for delta in ("none", "two") if sc.startswith("@") and ":" not in sc else ("none",):
+                            if pk == "rect" and other == "given":
+                                continue
+                            tds.append(dict(fam="scalar1", rk=rk, attr=attr, sc=sc, delta=delta, pk=pk, other=other))
             tds.append(dict(fam="scalar", rk=rk, attr=attr, sc="bare", delta="none"))
             tds.append(dict(fam="scalar", rk=rk, attr=attr, sc="bare", delta="abs"))
             for loc in LOCS:
@@ -103,7 +115,7 @@ def templates(tier, seed):
                 for ref2 in ("#m", "^"):
                     tds.append(dict(fam="chain", rk=rk, f1=f1, f2=f2, ref2=ref2))
     if tier == "quick":
-        tds = sample_quota(tds, lambda t: (t["fam"], t.get("rk")), {"dir": 1000, "loc": 400, "edge": 150, "scalar": 200, "size": 1000, "chain": 1000}, seed)
+        tds = sample_quota(tds, lambda t: (t["fam"], t.get("rk")), {"dir": 1000, "loc": 400, "edge": 150, "scalar": 200, "scalar1": 200, "size": 1000, "chain": 1000}, seed)
     return tds
 
 
@@ -273,6 +285,63 @@ def build(td, wrong=False):
             return [Obl(f"{attr}", ne(got, exp)), Obl("other-axis", ne(oth, f"v{k0 + 2}")), Obl("w", ne(pb.w, pw)), Obl("h", ne(pb.h, ph))]
         doc = "<svg>" + rm + pm + "</svg>"
         return Template(f"scalar/{td['rk']}/{attr}/{sc}/{td['delta']}", doc, vars_, std_check(obls, wrong), family="scalar", role=f"C09/scalar/{'loc' if sc.startswith('@') else 'ss'}", cap=12)
+    if fam == "scalar1":
+        rm, rvars, vbox, vis = RKS[td["rk"]]
+        vars_ = list(rvars)
+        k0 = len(vars_)
+        vars_ += [(6, *SZI), (8, *SZI), (40, *POS)]
+        attr, sc, pk = td["attr"], td["sc"], td["pk"]
+        xaxis = attr in ("x", "cx", "x2")
+        dl, kd, ko = "", None, None
+        if td["delta"] == "two":
+            kd = len(vars_)
+            vars_ += [(5, *DLT), (-7, *DLT)]
+            dl = f" [[{kd}]] [[{kd + 1}]]"
+        if sc == "bare":
+            val = "#r"
+        elif sc == "@l:o":
+            ko = len(vars_)
+            vars_.append((2, *DLT))
+            val = f"#r@l:[[{ko}]]"
+        elif sc.startswith("@"):
+            val = "#r" + sc + dl
+        else:
+            val = "#r" + sc
+        other_attr = ""
+        if td["other"] == "given":
+            other_attr = (f' cy="[[{k0 + 2}]]"' if xaxis else f' cx="[[{k0 + 2}]]"')
+        size = {"rect": f'wh="[[{k0}]] [[{k0 + 1}]]"', "circle": f'r="[[{k0}]]"', "ellipse": f'rxy="[[{k0}]] [[{k0 + 1}]]"'}[pk]
+        pm = f'<{pk} id="p" {attr}="{val}"{other_attr} {size}/>'
+        pw = f"v{k0}" if pk == "rect" else mul("2.0", f"v{k0}")
+        ph = (f"v{k0 + 1}" if pk == "rect" else mul("2.0", f"v{k0}") if pk == "circle" else mul("2.0", f"v{k0 + 1}"))
+
+        def obls(o, pb):
+            rb = ref_box(o, td["rk"], vis, vbox)
+            if sc == "bare":
+                exp = rb.scalar(attr)
+            elif sc == "@l:o":
+                lx, ly = rb.edge("l", f"v{ko}")
+                exp = lx if xaxis else ly
+            elif sc.startswith("@"):
+                lx, ly = rb.loc(sc[1:])
+                exp = lx if xaxis else ly
+            else:
+                exp = rb.scalar(sc[1:])
+            if td["delta"] == "two":
+                exp = plus(exp, f"v{kd}" if xaxis else f"v{kd + 1}")
+            exp = plus(exp, W)
+            got = {"x": pb.x1, "cx": pb.cx, "x2": pb.x2, "y": pb.y1, "cy": pb.cy, "y2": pb.y2}[attr]
+            res = [Obl(f"{attr}", ne(got, exp)), Obl("w", ne(pb.w, pw)), Obl("h", ne(pb.h, ph))]
+            if td["other"] == "given":
+                res.append(Obl("other-axis", ne(pb.cy if xaxis else pb.cx, f"v{k0 + 2}")))
+            else:
+                # not positioned on the other axis: SVG default (coordinate 0 for the shape's native position attribute)
+                p = o.by_id("p")
+                nat = {"rect": ("y" if xaxis else "x"), "circle": ("cy" if xaxis else "cx"), "ellipse": ("cy" if xaxis else "cx")}[pk]
+                res.append(Obl("other-axis-default", ne(o.num(p, nat), "0.0")))
+            return res
+        doc = "<svg>" + rm + pm + "</svg>"
+        return Template(f"scalar1/{td['rk']}/{pk}/{attr}/{sc}/{td['delta']}/{td['other']}", doc, vars_, std_check(obls, wrong), family="scalar-one-axis", role=f"C09/scalar1/{pk}", cap=12)
     if fam == "size":
         rm, rvars, vbox, vis = RKS[td["rk"]]
         vars_ = list(rvars)
